@@ -46,6 +46,9 @@ def run(s):
 
     def on_pair_state(ro, cur, ev):
         acc.sweep(s, ro, cur, {'workload': 'pair-history'}, after=(ev or {}).get('msg_cls'))
+    for i_ in range(150 if q else 6000):
+        if s.mine(i_):
+            acc.interleaved(s, i_)
     K.pair_histories(s, timing='timed', text='plain', on_state=on_pair_state)
     idx = 0
     starts = ('2020-01-01T12:30:00', None, '')
